@@ -327,7 +327,7 @@ func c08ExecInner(scAny any, c *simcheck.Ctx) *simcheck.Violation {
 				}
 				what := "editing " + op.Item
 				if op.Op == "bump-req" {
-					what = fmt.Sprintf("moving the requirement on %s to %s", extPath(atoiOr(op.Item)), extVersions[((op.N%len(extVersions))+len(extVersions))%len(extVersions)])
+					what = fmt.Sprintf("moving the requirement on %s to %s", extPath(atoiOr(op.Item)), extVersion(atoiOr(op.Item), ((op.N%len(extVersions))+len(extVersions))%len(extVersions)))
 				}
 				return simcheck.V("fingerprint-misses-change", "after %s, which %s references (directly or through what it loads), a build did not re-execute %s (events: %s)", what, l, l, saw)
 			}
